@@ -15,7 +15,7 @@ from engine import symex as sx
 from engine.runner import Spec
 from engine.symex import SBool, lift_b, s_and, s_not, s_or
 
-LAYOUTS = ["single", "linear", "linear-override", "diamond", "diamond-override", "mixin"]
+LAYOUTS = ["single", "linear", "linear-override", "linear-shadow", "diamond", "diamond-override", "mixin"]
 KINDS = ["state", "timed", "default"]
 
 
@@ -55,6 +55,16 @@ def build(c, smm, layout, n):
     if layout == "single":
         cls = type("M", (SM,), ns(specs))
         note(specs)
+    elif layout == "linear-shadow":
+        # the subclass redefines an inherited state name as something that is not a state: the state is gone
+        k = max(1, n // 2)
+        base = type("B", (SM,), ns(specs[:k]))
+        body = ns(specs[k:])
+        what = c.choose("shadow_with", 3)
+        body[specs[0][0]] = [None, 7, (lambda self: None)][what]
+        cls = type("M", (base,), body)
+        note(specs[1:k])
+        note(specs[k:])
     elif layout in ("linear", "linear-override"):
         k = max(1, n // 2)
         base = type("B", (SM,), ns(specs[:k]))
@@ -172,7 +182,8 @@ def path_flags(c, job):
 BAD_SIGS = [
     ("def f(x): pass", "first-not-self"), ("def f(self, *args): pass", "varargs"),
     ("def f(self, **kw): pass", "kwargs"), ("def f(self, *, tm): pass", "kwonly"), ("def f(self, foo): pass", "bad-name"),
-    ("def f(self, tm, bar): pass", "bad-name-2"), ("def f(self, state_tm, *a): pass", "varargs-2"), ("def f(tm, self): pass", "self-not-first"),
+    ("def f(self, tm, bar): pass", "bad-name-2"), ("def f(self, speed=1.0): pass", "bad-name-default"),
+    ("def f(self, tm, foo=None): pass", "bad-name-default-2"), ("def f(self, tm=0, state_tm=0, x=0): pass", "bad-name-default-3"), ("def f(self, state_tm, *a): pass", "varargs-2"), ("def f(tm, self): pass", "self-not-first"),
 ]
 PARAMS = ("tm", "state_tm", "initial_call")
 GOOD_SIGS = [p for n in range(4) for p in itertools.permutations(PARAMS, n)]
@@ -271,9 +282,9 @@ class C12(Spec):
 
     def jobs(self, tier):
         n = 3 if tier == "quick" else 4
-        j = [dict(kind="flags", layout=l, n=(n if l in ("single", "linear", "linear-override", "mixin") else 4 if tier != "quick" else 3)) for l in LAYOUTS]
+        j = [dict(kind="flags", layout=l, n=(n if l in ("single", "linear", "linear-override", "linear-shadow", "mixin") else 4 if tier != "quick" else 3)) for l in LAYOUTS]
         if tier == "quick":
-            j = [dict(kind="flags", layout=l, n=3) for l in ("single", "linear", "linear-override", "mixin")] + \
+            j = [dict(kind="flags", layout=l, n=3) for l in ("single", "linear", "linear-override", "linear-shadow", "mixin")] + \
                 [dict(kind="flags", layout=l, n=4) for l in ("diamond", "diamond-override")]
         j += [dict(kind="defs", what=w) for w in ("signatures", "names", "alias-owner")]
         return j
